@@ -45,7 +45,7 @@ pub fn gen_main(args: &[String]) {
     let dir = &args[0]; let seed: u64 = args[1].parse().unwrap(); let n: usize = args[2].parse().unwrap();
     std::fs::create_dir_all(dir).unwrap();
     let mut r = Rng::new(seed ^ 0x1257A7E);
-    let mut index = vec![]; let (mut n_fail, mut n_start, mut n_start_trap, mut n_import, mut n_eoob, mut n_doob, mut n_eseg, mut n_dseg, mut n_null) = (0usize, 0usize, 0usize, 0usize, 0usize, 0usize, 0usize, 0usize, 0usize);
+    let mut index = vec![]; let mut gen_viol: Vec<Json> = vec![]; let (mut n_fail, mut n_start, mut n_start_trap, mut n_import, mut n_eoob, mut n_doob, mut n_eseg, mut n_dseg, mut n_null) = (0usize, 0usize, 0usize, 0usize, 0usize, 0usize, 0usize, 0usize, 0usize);
     // signature 5 = [] -> []: the start function
     let sigs: Vec<(Vec<T>, Vec<T>)> = vec![(vec![T::I32], vec![T::I32]), (vec![], vec![T::I32]), (vec![T::I32, T::I64], vec![T::I64]), (vec![T::I32], vec![]), (vec![T::I64], vec![T::I32, T::I64]), (vec![], vec![])];
     let btys = block_types(); let bt_base = sigs.len() as u32;
@@ -160,7 +160,9 @@ pub fn gen_main(args: &[String]) {
         if let Err(e) = crate::amod::validate(&wasm, crate::env::walrus_features(false)) { if std::env::var("VH_DEBUG").is_ok() { eprintln!("invalid generated module {}: {}", k, e); } n_fail += 1; continue; }
         // half of the modules additionally go through walrus's GC pass (drops unused passive / declared segments, unexported unused globals)
         let do_gc = k % 2 == 1;
-        let out = match catch(|| { let mut c = walrus::ModuleConfig::new(); c.generate_producers_section(false); c.parse(&wasm).map(|mut m| { if do_gc { walrus::passes::gc::run(&mut m); } m.emit_wasm() }).map_err(|e| e.to_string()) }) { Some(Ok(o)) => o, other => { if std::env::var("VH_DEBUG").is_ok() { eprintln!("walrus failed on module {}: {:?}", k, other.map(|x| x.err())); } n_fail += 1; continue } };
+        let out = match catch(|| { let mut c = walrus::ModuleConfig::new(); c.generate_producers_section(false); c.parse(&wasm).map(|mut m| { if do_gc { walrus::passes::gc::run(&mut m); } m.emit_wasm() }).map_err(|e| e.to_string()) }) { Some(Ok(o)) => o, other => { if std::env::var("VH_DEBUG").is_ok() { eprintln!("walrus failed on module {}: {:?}", k, other.as_ref().map(|x| x.as_ref().err())); }
+            gen_viol.push(Json::obj(vec![("class", Json::s(if other.is_none() { "walrus-panics-on-valid-module" } else { "walrus-rejects-valid-module" })), ("what", Json::s(format!("generated module {}: parse{} / emit {} on a module the reference validator accepts", k, if do_gc { " / gc" } else { "" }, if other.is_none() { "panics".to_string() } else { format!("fails: {:?}", other.as_ref().and_then(|x| x.as_ref().err())) }))), ("input", Json::s(crate::c03::hex(&wasm)))]));
+            n_fail += 1; continue } };
         let id = format!("{:05}", k);
         std::fs::write(format!("{}/{}.in.wasm", dir, id), &wasm).unwrap(); std::fs::write(format!("{}/{}.out.wasm", dir, id), &out).unwrap();
         if with_start { n_start += 1; } if start_traps { n_start_trap += 1; } if with_import { n_import += 1; } if e_oob { n_eoob += 1; } if d_oob { n_doob += 1; }
@@ -181,6 +183,6 @@ pub fn gen_main(args: &[String]) {
             ("gc", Json::Bool(do_gc)), ("g0idx", Json::u(gb as usize)), ("g1idx", Json::u(gb as usize + 1)),
             ("expect", Json::obj(vec![("elem_oob", Json::Bool(e_oob)), ("data_oob", Json::Bool(d_oob)), ("start", Json::Bool(with_start)), ("start_traps", Json::Bool(start_traps))]))]));
     }
-    std::fs::write(format!("{}/index.json", dir), Json::obj(vec![("cases", Json::Arr(index)), ("failures", Json::u(n_fail)), ("with_start", Json::u(n_start)), ("start_ends_in_unreachable", Json::u(n_start_trap)), ("with_imported_global", Json::u(n_import)),
+    std::fs::write(format!("{}/index.json", dir), Json::obj(vec![("cases", Json::Arr(index)), ("oracle_violations", Json::Arr(gen_viol)), ("failures", Json::u(n_fail)), ("with_start", Json::u(n_start)), ("start_ends_in_unreachable", Json::u(n_start_trap)), ("with_imported_global", Json::u(n_import)),
         ("element_segment_out_of_bounds", Json::u(n_eoob)), ("data_segment_out_of_bounds", Json::u(n_doob)), ("active_element_segments", Json::u(n_eseg)), ("active_data_segments", Json::u(n_dseg)), ("null_entries", Json::u(n_null))]).to_string()).unwrap();
 }
